@@ -3,7 +3,7 @@
 From Coq Require Import ZArith List Bool PeanoNat Lia.
 From FT Require Import Model.Base Model.C08Split Model.C10Model.
 Import ListNotations.
-Local Open Scope nat_scope.
+Local Open Scope N_scope.
 
 Section LtInd.
   Variable P : lt -> Prop.
@@ -47,11 +47,11 @@ Proof.
 Qed.
 
 (* ---------- label bounds *)
-Definition lo_ok (lo : nat) (t : lt) : Prop := forall l, In l (labels t) -> lo <= l.
-Definition hi_ok (hi : nat) (t : lt) : Prop := forall l, In l (labels t) -> l < hi.
-Definition lo_es (lo : nat) (es : les) : Prop := forall l, In l (labels_es es) -> lo <= l.
-Definition lo_snap (lo : nat) (s : snapshot) : Prop := forall l, In l (snap_labels s) -> lo <= l.
-Definition hi_snap (hi : nat) (s : snapshot) : Prop := forall l, In l (snap_labels s) -> l < hi.
+Definition lo_ok (lo : N) (t : lt) : Prop := forall l, In l (labels t) -> lo <= l.
+Definition hi_ok (hi : N) (t : lt) : Prop := forall l, In l (labels t) -> l < hi.
+Definition lo_es (lo : N) (es : les) : Prop := forall l, In l (labels_es es) -> lo <= l.
+Definition lo_snap (lo : N) (s : snapshot) : Prop := forall l, In l (snap_labels s) -> lo <= l.
+Definition hi_snap (hi : N) (s : snapshot) : Prop := forall l, In l (snap_labels s) -> l < hi.
 
 Lemma lo_es_iff lo es : lo_es lo es <-> (forall ct, In ct es -> lo_ok lo (snd ct)).
 Proof.
@@ -127,11 +127,11 @@ Qed.
 Lemma mem_false_iff x l : mem x l = false <-> ~ In x l.
 Proof.
   unfold mem. split.
-  - intros H Hin. assert (existsb (Nat.eqb x) l = true) as E.
-    { apply existsb_exists. exists x. split; [exact Hin | apply Nat.eqb_refl]. }
+  - intros H Hin. assert (existsb (N.eqb x) l = true) as E.
+    { apply existsb_exists. exists x. split; [exact Hin | apply N.eqb_refl]. }
     congruence.
-  - intros H. destruct (existsb (Nat.eqb x) l) eqn:E; [|reflexivity].
-    apply existsb_exists in E. destruct E as [y [Hy E]]. apply Nat.eqb_eq in E. subst. contradiction.
+  - intros H. destruct (existsb (N.eqb x) l) eqn:E; [|reflexivity].
+    apply existsb_exists in E. destruct E as [y [Hy E]]. apply N.eqb_eq in E. subst. contradiction.
 Qed.
 
 Lemma mutate_id S k t : (forall l, In l (labels t) -> ~ In l S) -> mutate S k t = t.
@@ -153,7 +153,7 @@ Lemma upd_fiber_id f0 g t : ~ In f0 (labels t) -> upd_fiber f0 g t = t.
 Proof.
   induction t as [b v | f a es IH] using lt_ind'; intros H; cbn; [reflexivity|].
   assert (f <> f0) as Hne. { intros ->. apply H. left. reflexivity. }
-  apply Nat.eqb_neq in Hne. rewrite Hne.
+  apply N.eqb_neq in Hne. rewrite Hne.
   assert (~ In f0 (labels_es es)) as Hes.
   { intros Hl. apply H. right. apply in_or_app. right. exact Hl. }
   f_equal. clear H Hne. induction IH as [| ct es Hct _ IHes]; cbn; [reflexivity|].
@@ -204,7 +204,7 @@ Definition same_snaps (st st' : pair_st) : Prop :=
   fst (fst st) = fst (fst st') /\ snd (fst st) = snd (fst st').
 
 Lemma create_default_false lvl s nx : fst (create_default false lvl s nx) = s.
-Proof. unfold create_default. destruct (S lvl <? length (s_ranks s)); destruct s; reflexivity. Qed.
+Proof. unfold create_default. destruct (Nat.ltb (S lvl) (length (s_ranks s))); destruct s; reflexivity. Qed.
 
 Lemma create_on_false sb lvl st : same_snaps (create_on false sb lvl st) st.
 Proof.
@@ -256,12 +256,23 @@ Proof.
     + apply IH.
 Qed.
 
+Lemma iterunc_false es cs : forall st,
+  same_snaps (fold_left (fun st c => match lookup_c c es with
+                                     | Some _ => st
+                                     | None => create_on false false O st
+                                     end) cs st) st.
+Proof.
+  induction cs as [| c cs IH]; intros st; cbn [fold_left]; [apply same_snaps_refl|].
+  eapply same_snaps_trans; [apply IH|]. destruct (lookup_c c es); [apply same_snaps_refl | apply create_on_false].
+Qed.
+
 Lemma observe_false d o st : same_snaps (observe false d o st) st.
 Proof.
-  destruct st as [[a b] nx]. destruct o; cbn.
+  destruct st as [[a b] nx]. destruct o; cbn [observe].
   - apply get_walk_false.
   - apply union_walk_false.
   - apply eq_walk_false.
+  - apply iterunc_false.
   - apply same_snaps_refl.
 Qed.
 
